@@ -44,6 +44,57 @@ def compare(ref, got):
     return diffs
 
 
+def synth_flow_section(chk, dist, n):
+    """gcno/gcda pairs synthesised from random CFGs with a real (random-walk) profile, arcs of a block listed in shuffled
+    or descending destination order as clang <= 10 wrote them (clang 11+ sorts them): three references - the flow
+    semantics (every block on its own line: count = visits), llvm-cov-14 gcov on the synthetic pair, the Gallina model"""
+    sc = vlib.scratch("c08_synth")
+    items = []
+    for i in range(n):
+        f, counters, exp = G.flow_function(chk.rng, i + 1, tree=(i % 2 == 1), order=chk.rng.choice(["shuffle", "desc"]), walks=chk.rng.randrange(1, 9))
+        version = chk.rng.choice([b"*204", b"*704"])
+        items.append({"f": f, "exp": exp, "gcno": G.synth_gcno([f], version=version), "gcda": G.synth_gcda([f], {f["ident"]: counters}, version=version)})
+    cases = [G.case(it["gcno"], [it["gcda"]], True) for it in items]
+    impl = G.run_guarded(cases, chk.pid)
+    nref = max(4, n // 4)
+    model = G.run_model(chk.pid, cases[:nref], shard_size=20)
+    for i, (it, c, r) in enumerate(zip(items, cases, impl)):
+        chk.count()
+        rep = {"synthetic": True, "gcno": c["gcno"], "gcdas": c["gcdas"], "arcs": [[s_, [list(x) for x in ds]] for s_, ds in it["f"]["arcs"]], "expected": it["exp"]}
+        if "ok" not in r:
+            chk.violation(dict(rep, kind="oracle", impl=r, clause="Gcno::compute must accept a well-formed gcno/gcda pair"), tag="synth")
+            continue
+        got = G.canon_impl(r)
+        gl = {l: x for _n, c_ in got for l, x in c_["lines"]}
+        gb = {l: v for _n, c_ in got for l, v in c_["branches"]}
+        ge = all(f_[2] for _n, c_ in got for f_ in c_["funcs"])
+        exp = it["exp"]
+        if gl != exp["lines"] or ge != exp["executed"] or gb != exp["branches"]:
+            chk.violation(dict(rep, kind="oracle", engine="gcno", impl={"lines": gl, "branches": gb, "executed": ge},
+                               clause="per-line counts, branch outcomes and the executed flag equal the flow semantics of the recorded profile (counters belong to the arcs in notes-file order)"), tag="synth")
+        dist["synthetic_flow"] = dist.get("synthetic_flow", 0) + 1
+        if i < nref:
+            try:
+                ref = cgen.gcov_reference_bytes(os.path.join(sc, "s%d" % i), {"s.c": "".join("/* %d */\n" % k for k in range(1, 40))}, it["gcno"], it["gcda"])
+                diffs = compare(ref, of_impl(got))
+                if diffs:
+                    chk.violation(dict(rep, kind="oracle", engine="gcno", differences=diffs[:20], reference=ref,
+                                       clause="per-line counts and executed flags equal those of llvm-cov gcov (synthetic pair)"), tag="synth-gcov")
+                dist["synthetic_gcov"] = dist.get("synthetic_gcov", 0) + 1
+            except Exception as ex:
+                chk.extra.setdefault("skipped_programs", []).append("synthetic gcov: " + str(ex)[:200])
+            rm = model[i]
+            if isinstance(rm, tuple) and rm and rm[0] == "@@ERROR":
+                chk.violation(dict(rep, kind="correspondence", model=rm), has_input=False, tag="corr")
+            else:
+                k, cm = G.canon_model(rm)
+                if k != "ok" or vlib.canon(cm) != vlib.canon(got):
+                    chk.violation(dict(rep, kind="correspondence", engine="gcno", impl=got, model=[k, cm],
+                                       theorems_at_stake="C08_* (the model no longer describes Gcno::compute)"), has_input=False, tag="corr")
+        if any(exp["lines"].values()):
+            chk.nontrivial(["synth", c["gcno"][:200]])
+
+
 _dump_cache = {}
 
 
@@ -186,6 +237,7 @@ def run(chk):
         if any(c > 0 for v in p["ref"].values() for c in v["lines"].values()):
             chk.nontrivial(["prog", pi, p["files"]["t.c"][:400]])
     dist["gcno_bytes"] = {"min": min(dist["gcno_bytes"] or [0]), "max": max(dist["gcno_bytes"] or [0])}
+    synth_flow_section(chk, dist, 40 if quick else 600)
     chk.extra["distribution"] = dist
     if progs:
         chk.sample({"source": progs[0]["files"]["t.c"][:600], "args": progs[0]["args"]}, limit=1)
@@ -195,6 +247,8 @@ def run(chk):
                        "(the exit block is the last block below 4.8 and block 1 from 4.8 on; cfg checksums from 4.7 on), run 0-3 times with different arguments; every third program (every second in thorough) "
                        "also as a big-endian twin (own converter: every 32-bit word byte-swapped, string payload bytes kept, counters low word first) with llvm-cov gcov on the twin as reference; compared: llvm-cov-14 gcov -b -c on the runtime-merged gcda "
                        "(per-line counts, '-' vs instrumented, function 'called' counts) vs Gcno::compute on [merged gcda] and on the list of per-run gcda vs the Gallina model on the same bytes; "
+                       "plus gcno/gcda pairs synthesised from random CFGs with a random-walk profile whose blocks list their arcs in shuffled / descending destination order (clang <= 10 layout; formats 4.2 and 4.7, "
+                       "with and without a spanning tree), judged against the flow semantics (one block per line), llvm-cov gcov on the synthetic pair and the model; "
                        "non-trivial = program with at least one executed line; distinct by source text")
     chk.cov["trusted_base"] = ["llvm-cov-14 gcov is the reference (not modelled)", "clang-14 and its profile runtime as producers", "parser of the .gcov text in py/cgen.py",
                                "Coq kernel, vm_compute, impl_run harness"]
